@@ -252,6 +252,12 @@ fn body(n: usize, tag: u8) -> Vec<u8> {
 
 /// Prefix histories (unfaulted) that build the state in which the request is faulted.
 pub fn prefix(state: &str) -> Vec<SymOp> {
+    if let Some(h) = state.strip_prefix("hist:") {
+        // a generated state: an alphabet-level history (thorough tier)
+        let hist: Vec<crate::alphabet::AOp> = h.split(';').filter(|x| !x.is_empty()).filter_map(crate::alphabet::AOp::parse).collect();
+        let node = crate::eseq::rebuild_node(Config { days: 14, versions: 100 }, &hist, &vec![None; hist.len()]).expect("generated history");
+        return node.steps.iter().map(|s| s.sop.clone()).collect();
+    }
     match state {
         "empty" => vec![],
         "one-version" => vec![SymOp::AddVersion { c: 0, parent: NIL, data: body(20, 1) }],
@@ -338,6 +344,15 @@ pub fn build_scenario(spec: SutSpec, state: &str, seed: u64, probe: Arc<dyn Prob
     let mut model = Model::new(cfg);
     let http = spec.is_http();
     for op in prefix(state) {
+        // ids the history quotes (fresh parents) are taken: versions get later symbols
+        let quoted = match &op {
+            SymOp::AddVersion { parent, .. } => *parent,
+            SymOp::AddSnapshot { v, .. } => *v,
+            _ => 0,
+        };
+        if quoted < 4000 && model.next_sid <= quoted {
+            model.next_sid = quoted + 1;
+        }
         let new_sid = model.next_sid;
         if let SymOp::AddVersion { c, .. } = &op {
             if !http && model.client(*c).is_none() {
